@@ -570,12 +570,62 @@ func c30(repo string, out *fg.Out) error {
 		})
 		return g
 	}
-	if g := getters("RouteWrite"); fmt.Sprint(g) != "[GetPrimaryWriter GetWriters]" {
-		return fmt.Errorf("Router.RouteWrite target sources changed: %v", g)
+	routeWriteGetters, routeQueryGetters := getters("RouteWrite"), getters("RouteQuery")
+	if len(routeWriteGetters) == 0 || len(routeQueryGetters) == 0 {
+		return fmt.Errorf("Router.RouteWrite / RouteQuery call no registry getter at all: %v / %v", routeWriteGetters, routeQueryGetters)
 	}
-	if g := getters("RouteQuery"); fmt.Sprint(g) != "[GetReaders GetWriters]" {
-		return fmt.Errorf("Router.RouteQuery target sources changed: %v", g)
+	// "Route* reads the registry on every call": the Router's fields (any place a resolved target could be
+	// memoised) and the receiver methods / fields RouteWrite and RouteQuery touch. Pinned by a Lean `decide`.
+	var routerFields [][2]string
+	for _, f := range cl {
+		for _, d := range f.AST.Decls {
+			gd, ok := d.(*ast.GenDecl)
+			if !ok || gd.Tok != token.TYPE {
+				continue
+			}
+			for _, sp := range gd.Specs {
+				ts := sp.(*ast.TypeSpec)
+				st, ok := ts.Type.(*ast.StructType)
+				if !ok || ts.Name.Name != "Router" {
+					continue
+				}
+				for _, fl := range st.Fields.List {
+					for _, n := range fl.Names {
+						routerFields = append(routerFields, [2]string{n.Name, norm(f.Text(fl.Type))})
+					}
+					if len(fl.Names) == 0 {
+						routerFields = append(routerFields, [2]string{"(embedded)", norm(f.Text(fl.Type))})
+					}
+				}
+			}
+		}
 	}
+	if len(routerFields) == 0 {
+		return fmt.Errorf("type Router struct not found in internal/cluster")
+	}
+	// every `r.<x>` selector (field read/write or method call) in the body, deduplicated, in source order
+	recvUses := func(name string) []string {
+		f, fd := fg.FindFunc(cl, "Router", name)
+		rn := fd.Recv.List[0].Names[0].Name
+		var out []string
+		seen := map[string]bool{}
+		ast.Inspect(fd.Body, func(n ast.Node) bool {
+			sel, ok := n.(*ast.SelectorExpr)
+			if !ok {
+				return true
+			}
+			if id, ok := sel.X.(*ast.Ident); ok && id.Name == rn {
+				t := norm(f.Text(sel))
+				if !seen[t] {
+					seen[t] = true
+					out = append(out, sel.Sel.Name)
+				}
+			}
+			return true
+		})
+		return out
+	}
+	routeWriteUses, routeQueryUses := recvUses("RouteWrite"), recvUses("RouteQuery")
 	// doForward: forwardReq.Header.Set(K, V) in order; header copy loop uses Add on originalReq.Header
 	type setH struct {
 		Key string `json:"key"`
@@ -952,6 +1002,20 @@ func c30(repo string, out *fg.Out) error {
 		fmt.Fprintf(w, "(%s, %s)", fg.LeanStr(s.Key), fg.LeanStr(s.Src))
 	}
 	fmt.Fprintf(w, "]\n")
+	fmt.Fprintf(w, "/-- fields of `type Router struct` (name, type): every place a resolved target could be remembered -/\n")
+	fmt.Fprintf(w, "def routerFields : List (String × String) := [")
+	for i, rf := range routerFields {
+		if i > 0 {
+			fmt.Fprintf(w, ", ")
+		}
+		fmt.Fprintf(w, "(%s, %s)", fg.LeanStr(rf[0]), fg.LeanStr(rf[1]))
+	}
+	fmt.Fprintf(w, "]\n")
+	fmt.Fprintf(w, "/-- registry getters called by RouteWrite / RouteQuery (source order) and the receiver members they touch -/\n")
+	fmt.Fprintf(w, "def routeWriteGetters : List String := %s\n", strList(routeWriteGetters))
+	fmt.Fprintf(w, "def routeQueryGetters : List String := %s\n", strList(routeQueryGetters))
+	fmt.Fprintf(w, "def routeWriteUses : List String := %s\n", strList(routeWriteUses))
+	fmt.Fprintf(w, "def routeQueryUses : List String := %s\n", strList(routeQueryUses))
 	fmt.Fprintf(w, "/-- (file:func, decision helper, route method) of every handler that forwards -/\n")
 	fmt.Fprintf(w, "def handlerSites : List (String × String × String) := [\n")
 	for i, s := range sites {
@@ -994,5 +1058,8 @@ func c30(repo string, out *fg.Out) error {
 	out.JSON["forward_sets"] = sets
 	out.JSON["handler_sites"] = sites
 	out.JSON["routes"] = routes
+	out.JSON["router_fields"] = routerFields
+	out.JSON["route_write_getters"] = routeWriteGetters
+	out.JSON["route_query_getters"] = routeQueryGetters
 	return nil
 }
